@@ -317,7 +317,23 @@ class _SILoc:
         return s._v[int(k)]
 
 
+class MaybeNA:
+    """A cell that is missing (NaN) iff `na` (symbolic), else holds `value`."""
+    __slots__ = ("na", "value")
+
+    def __init__(self, na, value):
+        self.na, self.value = na, value
+
+    def __symx_eval__(self, m):
+        return None if core.eval_model(m, self.na) else core.eval_model(m, self.value)
+
+    def __repr__(self):
+        return "MaybeNA(%r, %r)" % (self.na, self.value)
+
+
 def _isna(v):
+    if isinstance(v, MaybeNA):
+        return v.na
     return v is None or (isinstance(v, float) and v != v)
 
 
@@ -475,6 +491,9 @@ class DataFrame(_HasIndex):
             index = index if index is not None else data.index
             dtypes = dtypes or data._dt
             data = data._c
+        if isinstance(data, list) and data and all(isinstance(r, Series) for r in data):  # list of rows
+            keys = list(data[0].index)
+            data = {k: [r._v[list(r.index).index(k)] for r in data] for k in keys}
         if isinstance(data, list):  # list of dict records
             keys = list(columns) if columns is not None else (list(data[0]) if data else [])
             data = {k: [r[k] for r in data] for k in keys}
@@ -710,7 +729,7 @@ class DataFrame(_HasIndex):
 
     def any(self, axis=0):
         if axis == 0:
-            return Series([s_or(*v) if v else False for v in self._c.values()], list(self._c), dtype=bool_)
+            return Series([s_or(*[x for x in v if x is not None]) if v else False for v in self._c.values()], list(self._c), dtype=bool_)
         return Series([s_or(*[self._c[c][i] for c in self._c]) for i in range(len(self.index))], self.index, dtype=bool_)
 
     def sort_values(self, by, ascending=True, inplace=False, axis=0, kind=None, ignore_index=False):
@@ -839,21 +858,27 @@ def concat(objs, axis=0, ignore_index=False, sort=False, copy=None):
             idx += list(s.index)
         return Series(vals, None if ignore_index else idx, objs[0].name)
     first = objs[0]
-    cols = {c: [] for c in first._c}
+    names = list(first._c)
+    for d in objs[1:]:
+        for c in d._c:
+            if c not in names:
+                names.append(c)  # pandas: union of the columns, missing cells become NaN
+    cols = {c: [] for c in names}
     index = []
     for d in objs:
-        if list(d._c) != list(first._c):
-            if set(d._c) != set(first._c):
-                raise Unsupported("concat with different column sets: %r vs %r" % (list(d._c), list(first._c)))
         for c in cols:
-            cols[c] += d._c[c]
+            cols[c] += d._c[c] if c in d._c else [None] * len(d.index)
         index += list(d.index)
     dts = {}
     for c in cols:
-        k = first._dt[c].kind
-        for d in objs[1:]:
-            if len(d.index):
-                k = symnp._promote(k, d._dt[c].kind) if len(first.index) else d._dt[c].kind
+        k = None
+        for d in objs:
+            if c in d._c and len(d.index):
+                k = d._dt[c].kind if k is None else symnp._promote(k, d._dt[c].kind)
+            elif c not in d._c and len(d.index):
+                k = "O" if k in (None, "b", "O") else "f"
+        if k is None:
+            k = first._dt[c].kind if c in first._dt else "O"
         dts[c] = _KD[k]
     return DataFrame(cols, None if ignore_index else index, dts)
 
